@@ -35,7 +35,7 @@ def dims(d, with_stride):
             "pad": [None, "SAME", "VALID", [[1, 1], [2, 2]], [[1, 1], [1, 1]]],
             "rhs": [1, 2, [1, 2], 3],
             "lhs": [None, [2, 2]],
-            "ext": [[4, 4], [3, 5]],
+            "ext": [[4, 4], [3, 5], [2, 5]],  # extent 2 < wrap reach of a 3-filter at dilation 3
         }
     else:
         dd = {
